@@ -39,4 +39,63 @@ theorem frontEnd_opts (opts : Opts) (fs : SrcFiles) (roots : List (List Char)) (
     · cases h
     · injection h with h; injection h with h1 _; subst h1; exact ⟨rfl, rfl⟩
 
+theorem iterLoop_error_nonempty (st : Static) (nodes : List AstNode) (max : Nat) :
+    ∀ fuel i d rep msgs, iterLoop st nodes max fuel i d rep = .error msgs → msgs ≠ [] := by
+  intro fuel
+  induction fuel with
+  | zero => intro i d rep msgs h; simp [iterLoop] at h
+  | succ n ih =>
+    intro i d rep msgs h
+    simp only [iterLoop] at h
+    split at h
+    · cases h
+    · split at h
+      · injection h with h; subst h; simp
+      · split at h
+        · split at h <;> cases h
+        · split at h
+          · injection h with h; subst h; simp
+          · exact ih _ _ _ _ h
+
+/-- an error is never silent -/
+theorem assemble_error_nonempty (opts : Opts) (fs : SrcFiles) (roots : List (List Char)) (msgs : List String)
+    (h : assemble opts fs roots = .error msgs) : msgs ≠ [] := by
+  unfold assemble at h
+  cases hf : frontEnd opts fs roots with
+  | error e =>
+    rw [hf] at h; injection h with h; subst h
+    exact frontEnd_error_nonempty opts fs roots e hf
+  | ok x =>
+    obtain ⟨st, nodes, defs0⟩ := x
+    rw [hf] at h
+    simp only at h
+    cases hr : resolveIteratively st nodes defs0 with
+    | error e =>
+      rw [hr] at h; injection h with h; subst h
+      unfold resolveIteratively resolveIterativelyN at hr
+      split at hr
+      · rename_i hl; injection hr with hr; subst hr; exact iterLoop_error_nonempty _ _ _ _ _ _ _ _ hl
+      · cases hr
+      · split at hr
+        · injection hr with hr; subst hr; simp
+        · split at hr
+          · cases hr
+          · injection hr with hr; subst hr; simp
+    | ok y =>
+      obtain ⟨iters, d, rep⟩ := y
+      rw [hr] at h
+      simp only at h
+      cases rep with
+      | cons a t => simp at h; subst h; simp
+      | nil =>
+        simp only [List.isEmpty_nil, Bool.not_true, Bool.false_eq_true, if_false] at h
+        split at h
+        · injection h with h; subst h; simp
+        · split at h
+          · rename_i hu; injection h with h; subst h; intro hc; simp [hc] at hu
+          · split at h
+            · injection h with h; subst h; simp
+            · cases h
+
+
 end Casm
